@@ -21,7 +21,7 @@ CLAIMED: dict[str, tuple[str, str, str, str]] = {
             "--parallel runs are recorded with the H2 event tap; every execution is validated by TLC "
             "against ParallelTrace.tla (layer A verdict + layer B drift). The CLI stage passes one directory, a file "
             "list, several directory arguments and files plus directories (a CLI invocation is a sequence of runs "
-            "in either mode); a run whose tap events cannot be bound to the model is judged on its results alone.",
+            "in either mode); a run whose tap events cannot be bound to the model is judged on its results alone. Dispatchers that submit incrementally and drain with wait() are driven by the same schedules (SchedPool.wait); schedules include more than four files per worker.",
             "Bounded: N<=40 files, K<=16; controlled pool replaces ProcessPoolExecutor/as_completed only; "
             "real-pool schedules are sampled; trusted: TLC, the H2 tap, the projection in checks/C07.py.",
             TECH),
@@ -33,7 +33,7 @@ CLAIMED: dict[str, tuple[str, str, str, str]] = {
             "Linter with a fresh Linter as reference after every call and validated by TLC against "
             "OrchestratorTrace.tla; all permutations of <=5 files (sampled beyond), PYTHONHASHSEED values and "
             "before/after snapshots of the project dir and a private TMPDIR for every command (sequential, "
-            "--parallel, both DRY storage modes) through real processes.",
+            "--parallel, both DRY storage modes) through real processes. The permutation law is also run through lint_files_parallel (2 workers).",
             "Bounded histories (depth <=12), 4 abstract content classes, config not edited mid-history; "
             "the reference is the same code on a fresh object (relation between runs).",
             TECH),
@@ -47,7 +47,7 @@ CLAIMED: dict[str, tuple[str, str, str, str]] = {
             "models the directory walker against repository ignore patterns (a pattern may match a directory path "
             "and none of its files; non-vacuity run with directory pruning) and its 57 pattern sets are replayed as "
             ".thailintignore files on a nested layout; further projects share all identifiers between files (a list "
-            "and a string accumulator of the same name in neighbouring files).",
+            "and a string accumulator of the same name in neighbouring files). For an 18-file project `--parallel .` on the CLI is compared with Linter.lint as well.",
             "6-file projects; per-file rule = all rules but dry.*/stringly-typed.*; `dry --config <file without "
             "dry section>` excluded (overlay-vs-replace semantics undocumented).",
             TECH),
@@ -85,7 +85,7 @@ CLAIMED: dict[str, tuple[str, str, str, str]] = {
             "sections x spelling x 5 carriers, 10 switches, monotone sweeps, invalid values and unparsable "
             "files per carrier are further record kinds; ConfigTrace.tla re-evaluates EffectiveA per record. A file of "
             "another language carrying its own per-language override is linted before / after the probe in the same run "
-            "(`companion`; non-vacuity run with one parsed section object shared by the whole run).",
+            "(`companion`; non-vacuity run with one parsed section object shared by the whole run). The top-level `ignore` list is a record kind of its own: every combination of yaml / json / pyproject carriers, each holding a list that names its own directory, judged against IgnoreWinner (the same file order as the settings).",
             "Precedence asserted only when every present carrier sets the option; effective value identified "
             "by equality with a reference run (references must be pairwise distinct: TakesEffect).",
             TECH),
@@ -96,7 +96,7 @@ CLAIMED: dict[str, tuple[str, str, str, str]] = {
             "non-vacuity run of the pinned commit); every placement x all 20 commands is executed and compared "
             "with the reference placement; PathsTrace.tla judges each record. Further placements: two path arguments, absolute "
             "and relative, from outside the project; the root of ANOTHER project (with an ignore file that hides every "
-            "source file of its own tree) as working directory (layer-B flag RuleParserAtCwd, pinned variant violates).",
+            "source file of its own tree) as working directory (layer-B flag RuleParserAtCwd, pinned variant violates). A sample of placements is repeated with --parallel (the project has more than 16 source files, so the pool is used).",
             "Project marked by .thailint.yaml only; message paths normalised by removing the project prefix as "
             "spelled; a parent literally named .git is excluded (it legitimately is a project-root marker).",
             TECH),
@@ -122,7 +122,7 @@ CLAIMED: dict[str, tuple[str, str, str, str]] = {
             "(extension spelling incl. multi-suffix names, shebang form, content language, command) cases; each is one fresh-process CLI run "
             "under four settings of the other linters' sections on a project that also contains an "
             "extensionless python-shebang script and an extensionless non-script; LanguagesTrace.tla judges "
-            "ForeignRule / WrongLanguage / UnknownTypeAnalysed / ExtensionCase / OtherSectionsMatter.",
+            "ForeignRule / WrongLanguage / UnknownTypeAnalysed / ExtensionCase / OtherSectionsMatter. Variant other_cwd starts the command in another directory and names the project by its absolute path (clause LanguageDependsOnCwd).",
             "Language-support table taken from the linter docs; a shebang inside a file WITH an unknown "
             "extension is not specified and not generated.",
             TECH),
@@ -137,7 +137,7 @@ CLAIMED: dict[str, tuple[str, str, str, str]] = {
             "in place and re-linted by one process / one held Linter, once as is and once with an inline directive "
             "in the file. As single edits, a blank / comment line is also inserted at EVERY line boundary of every base "
             "(bases include if/elif/else and try/except/finally chains on the nesting limit and a script ending in a "
-            "`__main__` block).",
+            "`__main__` block). One base is a script without extension whose language is known from its `#!` line (edits above that line excluded).",
             "For renaming edits the findings of stringly-typed and dry (which look at names / statement text) are "
             "left out; probe files contain no multi-line strings; file-level findings "
             "do not shift; header-sensitive linters get no insertion at the top.",
@@ -163,7 +163,7 @@ CLAIMED: dict[str, tuple[str, str, str, str]] = {
             "processes on YAML and JSON files with byte-level before/after comparison; init-config runs on every "
             "(user sections x spelling x block/flow/commented style x preset) case measure ValidYaml, Preserve, "
             "Effect (through the tool's own loader), Idempotent and PresetAccepted (all 20 commands); "
-            "ConfigToolTrace.tla replays histories through the spec's actions and judges every record.",
+            "ConfigToolTrace.tla replays histories through the spec's actions and judges every record. Hand-written files come in block, one-line flow, multi-line flow, commented and column-0-comment style.",
             "`returned unchanged` is judged on printed text; Effect through parse_config_file; histories <=8 "
             "commands.",
             TECH),
@@ -203,7 +203,7 @@ CLAIMED: dict[str, tuple[str, str, str, str]] = {
             "(nested in functions, split and non-contiguous impl blocks), linted over a threshold grid given "
             "directly, through per-language overrides with decoy values, on the command line, and in "
             "mixed-language directories with distinct per-language limits; SrpTrace.tla judges Spurious / Missed / "
-            "TwoViolations / IssueList / MethodCount / LocCount per class, cross-checked with a Python mirror.",
+            "TwoViolations / IssueList / MethodCount / LocCount per class, cross-checked with a Python mirror. The configured keyword list is part of the configuration (built-in / the user's naming the other suffix / naming nothing / empty).",
             "LOC = non-blank non-comment lines from header to last line (Rust: struct + all impls); TS "
             "constructors/accessors and Rust associated functions are not generated (undocumented).",
             TECH),
@@ -214,7 +214,7 @@ CLAIMED: dict[str, tuple[str, str, str, str]] = {
             "on every site; sites are rendered 300 per file (self-checked with tree-sitter) and linted under "
             "every option setting (4 + 16 + 16) with alternating section spelling; additionally twin files with "
             "byte-identical layout, one with and one without the test attributes, are linted in one run; "
-            "RustSafetyTrace.tla judges Missed / Spurious / Duplicate / WrongPosition per site.",
+            "RustSafetyTrace.tla judges Missed / Spurious / Duplicate / WrongPosition per site. Sites may stand in an `async fn` item declared in the function's body (inner `asyncfn`, optionally with a loop inside).",
             "No verdict for clones behind a closure inside a loop and let-bound clones inside a loop; nested fn "
             "items and #[tokio::test] are not generated; quick tier samples 2 400 sites and a quarter of the "
             "clone/blocking option settings per file.",
@@ -277,7 +277,7 @@ CLAIMED: dict[str, tuple[str, str, str, str]] = {
             "and LocationTrace.tla judges every reported violation from facts measured on the bytes of the linted "
             "file (renderer's Top cross-checked); the layout-independent clauses are also judged on every "
             "catalogued documented example as is / CRLF / no final newline / leading blank lines and on DRY pairs "
-            "holding the same code in six different layouts in both file orders.",
+            "holding the same code in six different layouts in both file orders. Magic-number templates for TypeScript and Rust also spell the literal in hexadecimal, octal, binary, with digit separators, an exponent or a type suffix.",
             "Columns are compared in UTF-8 bytes; for a multi-line call any line from the statement's first line to "
             "the method name is accepted; the quoted name is the reported construct's own name; quick tier samples "
             "70 layouts per template.",
